@@ -447,9 +447,9 @@ impl<S: Read> Master<S> {
         proof { assert(r->Ok_0.log() == started.log().add(started.fut(fed))); }
         r
     }
-//@@ before "self.read_input(&mut reader, &mut index, process.as_mut())?;"
+//@@ before "self.read_input(&mut reader"
             let ghost pre = process;
-//@@ after "self.read_input(&mut reader, &mut index, process.as_mut())?;"
+//@@ after "self.read_input(&mut reader"
             proof {
                 let f2 = choose|f2: Seq<Context>| fed_post(&*pre, &*process, f2);
                 lemma_fed_trans(&*started, &*pre, &*process, fed, f2);
